@@ -889,6 +889,8 @@ class BuildsAgree(CompileRun):
              'thorough': [(('cl21', False), ('cl21', True)), (('cl21', False), ('cl22', False)), (('cl21', False), ('cl23', False)),
                           (('cl22', False), ('cl22', True)), (('cl23', False), ('cl23', True)), (('cl23', False), ('cl24', False)),
                           (('cl23', False), ('cl23.1', False))]}
+    QUICK_O = ('arith', 'defun_if', 'inline_let', 'destructure', 'at_capture', 'rest_args', 'recursion', 'nested_inline', 'if_lazy', 'constant',
+               'macro', 'nested_mod', 'lambda_two_captures', 'string_ops')
     assumptions = CompileRun.assumptions + ['the two builds are compiled from the same template text with only the dialect sigil / optimise flag changed']
 
     def cases(self, tier):
@@ -899,6 +901,8 @@ class BuildsAgree(CompileRun):
                         continue           # one pair is enough to exhibit the known finding; each attempt costs minutes
                 elif tier == 'quick' and 'cl23' in (a[0], b[0]) and name not in self.QUICK_23:
                     continue
+                elif tier == 'quick' and b == ('cl21', True) and name not in self.QUICK_O:
+                    continue           # the -O post-pass is the classic optimiser, decided in depth under C04
                 for k in range(len(specs)):
                     yield dict(t=name, a=list(a), b=list(b), spec=k)
 
